@@ -12,7 +12,7 @@ import (
 // kind in between.  Few measurements and fields, so that drops followed by
 // re-creation with another type (the shape behind DESIGN §6 F16) are frequent.
 func gen(r *h.Rand, tier string, emit func([]string)) {
-	n := 240
+	n := 160
 	if tier == "thorough" {
 		n = 5000
 	}
@@ -65,8 +65,10 @@ func gen(r *h.Rand, tier string, emit func([]string)) {
 				ops = append(ops, "reopen")
 			case x < 66:
 				ops = append(ops, "crash")
-			case x < 78:
+			case x < 73:
 				ops = append(ops, "crashclose "+h.Pick(r, points))
+			case x < 78:
+				ops = append(ops, "crashopen "+h.Pick(r, points))
 			case x < 87:
 				ops = append(ops, "wtorn "+tornJ()+" "+batch()[2:])
 			case x < 93:
@@ -94,10 +96,14 @@ func gen(r *h.Rand, tier string, emit func([]string)) {
 	emit([]string{"w m|h=a|f:i:1|10", "reopen", "drop m", "w k|h=a|g:i:1|20", "drop k",
 		"w k|h=a|g:f:3ff0000000000000|30", "w m|h=a|f:i:2|40", "crashclose fields.renamed",
 		"w m|h=a|f:f:3ff0000000000000|50", "logsize", "reopen"})
+	// the same shape met by the recovery itself: kill, then crash inside the snapshot rewrite of the open
+	emit([]string{"crashopen fields.idxRemoved", "w zz|-|s:i:1|0", "w m|h=a|f:i:1|10", "reopen", "drop m", "w k|h=a|g:i:1|20", "drop k",
+		"w k|h=a|g:f:3ff0000000000000|30", "w m|h=a|f:i:2|40", "crashopen fields.renamed", "f",
+		"w m|h=a|f:f:3ff0000000000000|50", "crashopen fields.tmpWritten", "reopen"})
 	// drop, then unclean restart, then the other type
 	emit([]string{"w cpu|h=a|v:i:1|10 mem|h=a|v:i:2|20", "reopen", "drop cpu", "crash",
 		"w cpu|h=a|v:f:3ff0000000000000|30", "crash", "f"})
 	// malformed
-	emit([]string{"drop", "drop a-b", "wtorn x cpu|-|a:i:1|5", "wtorn 1", "droptorn 1", "crashclose nowhere", "crashclose",
+	emit([]string{"drop", "drop a-b", "wtorn x cpu|-|a:i:1|5", "wtorn 1", "droptorn 1", "crashclose nowhere", "crashclose", "crashopen", "crashopen fields.nowhere",
 		"wtorn 01 cpu|-|a:i:1|5", "f"})
 }
